@@ -49,11 +49,11 @@ type logEx struct {
 	resp *RespSpec
 	skip bool
 
-	reqKind   string
-	reqCT     string
-	reqCE     string
-	formPairs [][2]string
-	parts     []mpPart
+	reqKind    string
+	reqCT      string
+	reqCE      string
+	formPairs  [][2]string
+	parts      []mpPart
 	queryPairs [][2]string
 	cookies    [][2]string
 	setCookies [][2]string
